@@ -172,6 +172,15 @@ class RangeAnalysis:
             else:
                 r = (lf_scale(a[0], 1 / c), lf_scale(a[1], 1 / c))
             return r
+        if k == "mul" and (t[1][0] == "num" or t[2][0] == "num"):
+            x, cst = (t[2], t[1]) if t[1][0] == "num" else (t[1], t[2])
+            a = self.bounds(x, path + "/l")
+            if a is None or a == ("unit",):
+                return None
+            c = F(cst[1]).limit_denominator()
+            r = (lf_scale(a[0], c), lf_scale(a[1], c)) if c >= 0 else (lf_scale(a[1], c), lf_scale(a[0], c))
+            self.check(path, rshow(t), r, self.domain(t))
+            return r
         if k == "mul":
             a, c = self.bounds(t[1], path + "/l"), self.bounds(t[2], path + "/r")
             if a == ("unit",) and c not in (None, ("unit",)):
@@ -196,12 +205,17 @@ class RangeAnalysis:
         self.events.append((what, ok, "" if ok else "its %s bound leaves the element type's range at (lower, higher) = (%s)" % (which, v.upper())))
 
 
-def rule_r26_ranges(ctx, prog, rule="R26"):
+def rule_r26_ranges(ctx, prog, rule="R26", bodies=None):
     lo, hi, q, n = ("sym", "lower"), ("sym", "higher"), ("sym", "q"), ("sym", "len")
     names = {1: lo, 2: hi, 3: q, 4: n}
     n_ok = 0
-    for s_ in ("Lower", "Higher", "Midpoint", "Linear"):
-        b = prog.find("<quantile::interpolate::%s as quantile::interpolate::Interpolate<T>>::interpolate" % s_)
+    if bodies is None:
+        bodies = [(s_, prog.find("<quantile::interpolate::%s as quantile::interpolate::Interpolate<T>>::interpolate" % s_))
+                  for s_ in ("Lower", "Higher", "Midpoint", "Linear")]
+        floor = 30
+    else:
+        floor = 1
+    for s_, b in bodies:
         try:
             t = fn_term(prog, b, names, kernel_cls=TypedKernel)
         except Unrecognised as ex:
@@ -237,4 +251,4 @@ def rule_r26_ranges(ctx, prog, rule="R26"):
                    "with higher = lower the value is exactly lower" if okc else "with higher = lower the value is within [%s, %s], not exactly lower" % (L0, U0),
                    what="strategies differ when both neighbours coincide")
             n_ok += 2
-    ctx.floor(rule, n_ok, 30, "range obligations of the interpolation formulas")
+    ctx.floor(rule, n_ok, floor, "range obligations of the interpolation formulas")
